@@ -4016,14 +4016,28 @@ def cli15(ctx):
     n = 0
     for fn_, field in (("asca_bin::cli::seq::get_orig_words", "words"), ("asca_bin::cli::seq::get_orig_alias_into", "alias")):
         b = ctx.fn(bn, fn_)
-        root = b.hir["body"]
+        # private helpers of the module that are handed the config are read in place (`append_conf_words(dir, conf, ..)`)
+        root = hirq.inline_helpers(bn, b, keep={fn_}, prefixes=("asca_bin::cli::seq::",), max_depth=2)
         par = hirq.parent_map(root)
+        renames = {}
+        for y in hirq.walk(root):
+            if y["e"] == "let" and y.get("inl_param") and y["pat"].get("p") == "bind":
+                i0 = hirq.strip(y["init"])
+                while isinstance(i0, dict) and i0.get("e") == "addr":
+                    i0 = hirq.strip(i0["a"])
+                if isinstance(i0, dict) and i0.get("e") == "path" and "local" in i0:
+                    renames[y["pat"]["name"]] = i0["local"]
 
         def base_of(e):
             e = hirq.strip(e)
             while isinstance(e, dict) and e.get("e") in ("unary",) and e.get("op") == "Deref":
                 e = hirq.strip(e["a"])
-            return (e.get("local"), e.get("hid")) if isinstance(e, dict) and e.get("e") == "path" and "local" in e else None
+            if isinstance(e, dict) and e.get("e") == "path" and "local" in e:
+                nm = e["local"]
+                for _ in range(3):
+                    nm = renames.get(nm, nm)
+                return (nm,)
+            return None
 
         def from_test_base(cond):
             c = hirq.strip(cond)
